@@ -415,7 +415,7 @@ type Verdict int
 const (
 	Reject Verdict = iota
 	Accept
-	Either // control message with a body: property sentences pull both ways
+	Either // a data message nested deeper than the documented limit
 )
 
 // STypeName is the HSMS control table ("" = undefined).
@@ -465,7 +465,9 @@ func Decode(b []byte) (*Msg, Verdict, string) {
 			return nil, Reject, "undefined SType"
 		}
 		if n > 10 {
-			return m, Either, "control message with a body"
+			// a control message is its header (HSMS: length 10); a message object cannot carry the extra bytes, so
+			// an accepted one could never "denote exactly those bytes": the only answer that satisfies C03 is refusal
+			return nil, Reject, "control message followed by text"
 		}
 		return m, Accept, ""
 	}
